@@ -140,3 +140,95 @@ func vh_C20_L3_timer_callbacks_unlocked() { vh_C19_L3_retry_law() }
 // C20.L4: events that end a stream wake every goroutine blocked on it (teardown = C09.L7, peer reset = C14.L2).
 func vh_C20_L4_teardown_wakes_every_reader() { vh_C09_L7_every_blocked_reader_is_woken() }
 func vh_C20_L4_reset_wakes_every_reader()    { vh_C14_L2_deferred_reset() }
+
+// C20.L5: two API calls racing, with one context switch. The first call runs on the harness
+// goroutine; at any point where it has released a lock and holds none, the second call may
+// run to completion (vPreemptWith). What each pair must guarantee whichever way they
+// interleave:
+//   OpenStream(id) x OpenStream(id): both return the same stream, which is the registered one;
+//   OpenStream(id) x inbound DATA for id: one stream, it holds the data;
+//   WriteSCTP x WriteSCTP on one stream (blocking-write mode or not): both accepted, with two
+//     consecutive sequence numbers, each used once;
+//   WriteSCTP x Close: the write is either rejected or queued before the reset marker.
+func vh_C20_L5_racing_api_calls() {
+	a, _ := vNewAssocOpts(vAssocOpts{blockWrite: vPick(2) == 1})
+	switch vPick(4) {
+	case 0:
+		var other *Stream
+		vPreemptWith(func() { other, _ = a.OpenStream(7, PayloadTypeWebRTCBinary) })
+		mine, err := a.OpenStream(7, PayloadTypeWebRTCBinary)
+		vassert(err == nil && mine != nil, "open succeeds")
+		if vPreemptBody != nil { // the switch was not taken: the second call runs afterwards
+			vPreemptBody = nil
+			other, _ = a.OpenStream(7, PayloadTypeWebRTCBinary)
+		}
+		vassert(other == mine, "two callers opening the same identifier get the same stream")
+		vassert(a.streams[7] == mine, "and it is the registered one")
+		vcover("open-open")
+	case 1:
+		cum := a.peerLastTSN()
+		vPreemptWith(func() { _ = vDeliver(a, vDataChunk(a, cum+1, 7, false, 2)) })
+		mine, err := a.OpenStream(7, PayloadTypeWebRTCBinary)
+		vassert(err == nil && mine != nil, "open succeeds")
+		if vPreemptBody != nil {
+			vPreemptBody = nil
+			_ = vDeliver(a, vDataChunk(a, cum+1, 7, false, 2))
+		}
+		vassert(a.streams[7] == mine, "the stream created by inbound data and the one returned to the caller are the same")
+		vassert(mine.getNumBytesInReassemblyQueue() == 2, "and it holds the data")
+		vcover("open-data")
+	case 2:
+		s, _ := a.OpenStream(1, PayloadTypeWebRTCBinary)
+		a.cwnd, a.rwnd = 1<<20, 1<<20
+		var oerr error
+		vPreemptWith(func() { _, oerr = s.WriteSCTP([]byte{2}, PayloadTypeWebRTCBinary) })
+		_, merr := s.WriteSCTP([]byte{1}, PayloadTypeWebRTCBinary)
+		if a.blockWrite && merr == nil && a.writePending {
+			_ = vWriterPass(a) // the gate opens for the second writer
+		}
+		if vPreemptBody != nil {
+			vPreemptBody = nil
+			_, oerr = s.WriteSCTP([]byte{2}, PayloadTypeWebRTCBinary)
+		}
+		vassert(merr == nil && oerr == nil, "both writes are accepted")
+		_ = vWriterPass(a)
+		// the two messages carry two consecutive sequence numbers, each once (which of the
+		// two racing writers gets the lower one, and which reaches the wire first, is free)
+		if a.inflightQueue.size() == 2 {
+			x, y := a.inflightQueue.chunks.At(0).streamSequenceNumber, a.inflightQueue.chunks.At(1).streamSequenceNumber
+			vassert((x == 0 && y == 1) || (x == 1 && y == 0), "racing writers never share or skip a sequence number")
+		}
+		vassert(a.inflightQueue.size() == 2, "both messages are on their way")
+		vcover("write-write")
+	case 3:
+		s, _ := a.OpenStream(1, PayloadTypeWebRTCBinary)
+		a.cwnd, a.rwnd = 1<<20, 1<<20
+		vPreemptWith(func() { _ = s.Close() })
+		_, merr := s.WriteSCTP([]byte{1}, PayloadTypeWebRTCBinary)
+		if vPreemptBody != nil {
+			vPreemptBody = nil
+			_ = s.Close()
+		}
+		pkts := vWriterPass(a)
+		sawReset, dataAfterReset := false, false
+		for _, raw := range pkts {
+			if p := vDecode(raw); p != nil {
+				for _, c := range p.chunks {
+					switch c.(type) {
+					case *chunkReconfig:
+						sawReset = true
+					case *chunkPayloadData:
+						if sawReset {
+							dataAfterReset = true
+						}
+					}
+				}
+			}
+		}
+		vassert(sawReset, "the reset request goes out")
+		if merr == nil {
+			vassert(!dataAfterReset, "a write accepted while the stream was being closed is sent before the reset request")
+		}
+		vcover("write-close")
+	}
+}
